@@ -259,6 +259,12 @@ func refSequenceUnit(r refCfg, flight int) harness.Unit {
 		for _, e1 := range first {
 			one([]refdev.Edit{e1})
 		}
+		if !r.libIsClient && !r.auth && flight == 1 {
+			// a whole unsolicited client authentication: Certificate, ClientKeyExchange, CertificateVerify
+			// although the server never sent a CertificateRequest
+			cert, cv := gmref.ItemCertificate(), gmref.ItemCertVerify()
+			one([]refdev.Edit{{Flight: 1, Kind: "insert", Pos: 0, X: &cert}, {Flight: 1, Kind: "insert", Pos: 2, X: &cv}})
+		}
 		if c.Thorough() {
 			for _, e1 := range first {
 				// the list after e1 has at most one more item
